@@ -67,13 +67,16 @@ TABLE["C15"] = {
             "with' (up to the mirror introduced by expansion; exact without expansion) is preserved and no row is invented. "
             "Tie: real arim.Frame/Probe objects whose samples and per-element attributes encode physical labels; chains of 1-6 "
             "operations with slices of every step sign, boolean masks, permuted / negative / repeated / out-of-range integer lists; "
-            "after every step tx, rx, payload and probe labels are compared exactly with the model evaluated by vm_compute in coqc, and "
+            "after every step tx, rx, payload and probe labels are compared exactly with the model (extracted OCaml on every chain; the same "
+            "term by vm_compute in coqc on every chain in the quick tier and on 3000 chains in the thorough tier), single-operation "
+            "chains exhaustive on small sizes (all duplicate-free element lists, masks, slices), and "
             "the spec predicates (brute-force definitions) are evaluated on the implementation's output; fmc, hmc, infer, weights, the "
             "duplicate check, get_timetrace, is_complete separately.",
-    "note": "Trusted: Coq kernel; harness normalisation of slices/masks to arange(n)[idx]. Modelled, not verified: numpy fancy indexing, "
+    "note": "Trusted: Coq kernel; ExtrOcamlBasic extraction + ocaml/C15/driver.ml (cross-checked against vm_compute on every run); "
+            "harness normalisation of slices/masks to arange(n)[idx]. Modelled, not verified: numpy fancy indexing, "
             "np.isin, CPython set/dict semantics (exercised by the tie). apply_filter is covered for row-wise filters only (premise "
             "filter_ok; the harness uses scalar multiples). Scalar (non-list) indices and tuple indices are outside the property.",
-    "technique": "Coq proof by list induction (NoDup / Permutation / StronglySorted) + vm_compute correspondence on chains of operations",
+    "technique": "Coq proof by list induction (NoDup / Permutation / StronglySorted) + vm_compute / extracted-OCaml correspondence on chains of operations",
 }
 TABLE["C18"] = {
     "text": "Coq theorems (axiom-free) about an executable model of arim's view/path naming: for every duplicate-free list of path "
@@ -150,11 +153,13 @@ TABLE["C04"] = {
             "Snell round trip; energy conservation R^2 + sum T_m^2 (z_inc cos a_m)/(z_m cos a_inc) = 1 for the three functions below "
             "every critical angle, both on (sin, cos) constrained by Snell and cos^2+sin^2=1 (field_simplify_eq + nsatz) and for the "
             "functions as called on an incidence angle in [0, pi/2) with Snell angles computed on the fly; for complex angles: total "
-            "reflection |R|=1 beyond both critical angles, |R|^2+|T_T|^2 K=1 between them, and |R_TT|^2+|T|^2 K=1 for T incidence "
-            "beyond the L critical angle (on (sin, i*b) inputs and for the functions as called). In ANY field (proved in a Section "
+            "reflection |R|=1 beyond both critical angles, |R|^2+|T_T|^2 K=1 between them, |R_TT|^2+|T|^2 K=1 for T incidence "
+            "beyond the L critical angle and |R_TT|=1 beyond the L and fluid critical angles (on (sin, i*b) inputs and for the "
+            "functions as called) -- every regime of a fluid slower than the L wave. In ANY field (proved in a Section "
             "over an abstract field structure, instantiated for R and for pairs of reals, so for complex angles): the three Stokes "
             "relations T_lf = T_fl z_f cos a_l/(z_l cos a_f), T_tf = -T_ft z_f cos a_t/(z_t cos a_f), R_tl = -R_lt z_l cos a_t/(z_t cos a_l) "
-            "(the relations of tests/test_model.py incl. its magic_coefficient=-1) and the normal-incidence impedance formulas. The "
+            "(the relations of tests/test_model.py incl. its magic_coefficient=-1; also stated for the functions called with three complex "
+            "angles) and the normal-incidence impedance formulas (real and complex dtype). The "
             "angle-called functions are proved equal to the (sin, cos) formulas (double-angle identities, real and complex). The "
             "helpers' dispatch tables (selected coefficient, z_inc/z_out or c_inc/c_out for displacement, raising combinations) are "
             "proved for every numeric instance. Tie: the extracted model (OCaml floats + libm) is compared with arim at 1e-11 on random "
@@ -169,8 +174,8 @@ TABLE["C04"] = {
             "checked to 1e-11, not proved); theorems are exact-arithmetic, binary64 rounding is outside them. End-to-end routes that "
             "recompute Snell angles exclude cases with |s-1| < 1e-9 (class D; those are compared with the angles given) and allow a "
             "4-ulp error on the Snell sine times its conditioning; tolerances scale with the condition number of N. Partial: "
-            "post-critical energy balance is proved for fluid->solid (between / beyond) and T incidence beyond the L critical angle; "
-            "the regimes that need a fluid faster than a solid wave are covered by the residual predicate and correspondence only. "
+            "post-critical energy balance is proved for every regime with v_f < v_l; the regimes that need a fluid faster than the "
+            "L wave are covered by the residual predicate and correspondence only. "
             "The conjugate arcsin branch would satisfy every identity: it is caught by the correspondence only (no failing input).",
     "technique": "Coq proof over R (field_simplify_eq/nsatz/field), over an abstract field (Add Field in a Section) and over complex "
                  "pairs + extracted-OCaml differential correspondence + residual predicates on the implementation",
@@ -234,4 +239,60 @@ TABLE["C14"] = {
     "technique": "Coq proof: stratified Hoare-style lemmas per method over a state-and-error monad, heap frame invariant, induction over "
                  "operation lists; vm_compute correspondence on recorded histories (prefix-shared blocks) + differential test against "
                  "fresh uncached objects",
+}
+TABLE["C02"] = {
+    "text": "Coq theorems over the reals, for sample values in any module satisfying DataLaws (proved for the real and the "
+            "complex-as-pairs instances), for all frames / tables / weights / fill values / N: each mean kernel as written "
+            "(amp nearest, amp linear, noamp nearest, noamp linear [unconditional since the math.floor repair], noamp Lanczos with "
+            "periodic index) composed with weigh_timetraces equals das_spec = (1/N) sum_k (in-window ? w_k Atx Arx interp(x_k, l_k) : "
+            "fill); unit amplitudes = no amplitudes; l+f(r-l) = (1-f)l+fr; linear nodes/chords; invariance under reordering of the "
+            "timetraces; linearity of the image in the data (fill 0); the kernels' integer/float window tests are the spec windows; "
+            "dispatch decision table decided over the whole finite request domain (3x16x16x3) by vm_compute; the robust kernels hand "
+            "exactly the mean kernel's delayed samples to geomed/huber (any numeric instance), Huber fixed point solves the estimating "
+            "equation, geomed's triple is the inverse Hessian / Newton direction, accumulated gradient is the gradient, a stationary "
+            "point is a global minimiser (convexity). Tie: arim.im.das.delay_and_sum on real Frame/FocalLaw/TxRxAmplitudes objects vs the "
+            "model: class E bit-exact by vm_compute on binary64 (dyadic inputs, sweeps over every quarter-sample position -2..n+2, "
+            "float32/64, real/complex, weights, fills 0/NaN/-7, FMC/HMC/subsets/permuted, fresh/preallocated), class T/D at 1e-11 "
+            "(float32 1e-5) with decision-margin exclusion, Lanczos/median/Huber through the extracted OCaml model, dispatcher outcome "
+            "(kernel or exception class) for all 2304 requests; theorems das_permutation / das_unit_amp / das_linear_in_data and the "
+            "optimality of median/Huber outputs are evaluated on the implementation's outputs.",
+    "note": "Trusted: Coq kernel + stdlib real axioms; ExtrOcamlBasic extraction, ocaml/common/numf.ml, ocaml/C02/driver.ml; harness. "
+            "Partial: convergence of geomed/Huber iterations is not proved (geomed_stationary_is_min_partial; two known findings of the "
+            "median aggregation are reproduced from corpus/C02 on every run); rounding, numba fastmath (x/N compiled as x*(1/N): 1-ulp "
+            "tolerance when N is not a power of two), dtype promotion and object glue are sampled, not proved; the _general_* kernels are "
+            "unreachable from the dispatcher and not modelled.",
+    "technique": "Coq proof over R (list induction, ring/field/lra, Flocq Zfloor/ZnearestE, Permutation) + finite decision table by "
+                 "vm_compute + PrimFloat vm_compute and extracted-OCaml differential correspondence through the public API",
+}
+TABLE["C17"] = {
+    "text": "Coq theorems over the reals about a per-point model of arim.geometry written once over a Num record (Model/Vec3.v, "
+            "Model/Geometry.v): for every orthonormal frame (B B^T = B^T B = I; rows orthonormal is proved sufficient) and origin, "
+            "to_gcs/from_gcs are mutually inverse in both orders and preserve every distance and the whole pairwise distance table, for "
+            "one frame or one frame per point; CoordinateSystem.convert_* are these maps for the axes (i, j, i x j), a direct frame; "
+            "rotate preserves distances and fixes its centre; rotation_matrix_x/y/z/ypr are proper rotations (R R^T = I, det = 1) for all "
+            "(cos, sin) on the unit circle / all angles, with the orientation of each elementary matrix; direct_isometry_2d returns a "
+            "proper plane rotation with M A + P = A', M B + P = B' (via cos/sin of atan2 proved from cos_atan/sin_atan); "
+            "direct_isometry_3d (numpy.linalg.solve as an oracle with A.solve(A,b) = b, shown realizable by Cramer) returns the proper "
+            "rotation [u v w][i j k]^T sending i, j, i x j to u, v, u x v and A to B; spherical coordinates satisfy r >= 0, "
+            "0 <= theta <= pi, -pi <= phi <= pi, r cos(theta) = z and (full, origin included) r sin(theta) cos(phi) = x, "
+            "r sin(theta) sin(phi) = y; distance table entry (i,j) = Euclidean distance; a grid axis has the integer number of points "
+            "nearest to L/d + 1 (ZnearestE = Python round), contains both bounds and is evenly spaced when d <= L, is the single point "
+            "on a degenerate axis; Grid is the 'ij' meshgrid of its axes and to_1d_points has flat index (ix ny + iy) nz + iz (any "
+            "element type); grid_centred_at_point has an odd number n >= max(3, s/p + 1) of points with the centre exactly in the "
+            "middle; points_in_rectbox is true exactly when every supplied inclusive bound holds (all 64 subsets, one statement over "
+            "option bounds). Tie: real arim functions and the Points/CoordinateSystem/Grid methods against the model, bit for bit "
+            "(vm_compute on PrimFloat inside coqc and extracted OCaml) for frame changes on dyadic inputs, distance tables, grid axes / "
+            "grids / centred grids on every float, flattening order and box masks, and at 1e-11 (extracted OCaml with libm) for "
+            "rotations, isometries, spherical coordinates and frame changes on random floats; the spec predicates are evaluated on the "
+            "implementation's outputs to decide whether a failing input was found.",
+    "note": "Trusted: Coq kernel + the standard library's real-number axioms (grid_order, grid_is_meshgrid_of_axes are axiom-free); "
+            "ExtrOcamlBasic extraction, ocaml/common/numf.ml and ocaml/C17/driver.ml (cross-checked each run against vm_compute on the "
+            "class-E cases). Theorems are exact-arithmetic statements about NumR; binary64 rounding is outside them. numpy.linalg.solve "
+            "is an oracle (hypothesis A.(solve A b) = b for det A <> 0). Modelled, not verified: numpy broadcasting of point arrays of "
+            "any shape and of per-point frames, memory layout, dtype promotion (exercised by generators over shapes (), (n,), (n,m), "
+            "(n,m,k), C/F/strided inputs); numpy.linspace's denormal-step branch is not modelled; the assertion tolerances of "
+            "direct_isometry_* (numpy.isclose) are modelled and sampled on both sides, the theorems assume the exact equalities.",
+    "technique": "Coq proof over R (nsatz/ring/field/lra on 3x3 matrix algebra, Ratan cos_atan/sin_atan, Flocq Zfloor/Zceil/ZnearestE, "
+                 "list induction for the flattening order) + PrimFloat vm_compute and extracted-OCaml differential correspondence "
+                 "+ spec predicates evaluated on the implementation's outputs",
 }
